@@ -216,6 +216,44 @@ def feed(cx, data: bytes, cls: str, sample=False):
             bound = 3 * (len(data) + 64)
             if steps > bound:
                 cx.witness("steps.superlinear", {"steps": steps, "bound": bound, "len": len(data)}, replay)
+    # one Unpacker object that lives through the whole shard and is pointed at each new buffer with reset() (the
+    # documented way of re-using it): the AVPs of the body are decoded from it one after the other.  Whatever buffer
+    # it held before, nothing may be read beyond this one, and the AVP list must equal what a fresh Unpacker yields
+    if len(data) > 20 and cx.evals % 3 == 0:
+        from diameter.message.packer import Unpacker
+        body = data[20:]
+        outs = []
+        for which in ("shared", "fresh"):
+            if which == "shared":
+                if getattr(cx, "shared_unpacker", None) is None:
+                    cx.shared_unpacker = Unpacker(b"\x00" * 4096)
+                u = cx.shared_unpacker
+                u.reset(body)
+            else:
+                u = Unpacker(body)
+            got, end = [], None
+            Steps.reset(budget)
+            try:
+                while not u.is_done() and len(got) < 5000:
+                    a = Avp.from_unpacker(u)
+                    got.append((a.code, a.vendor_id, bytes(a.payload) if isinstance(a.payload, (bytes, bytearray)) else None))
+                    if u.get_position() > len(body):
+                        cx.witness("unpacker.reused.position_beyond_buffer",
+                                   {"pos": u.get_position(), "len": len(body)}, replay)
+                        break
+                end = "done"
+            except cx.allowed as e:
+                end = type(e).__name__
+            except cx.contracts.StepBudgetExhausted:
+                end = "budget"
+            except BaseException as e:
+                cx.witness(f"unpacker.reused.raises.{type(e).__name__}", {"which": which, "exc": repr(e)[:160]}, replay)
+                end = "other"
+            outs.append((got, end))
+        cx.cov["reused_unpacker_decodes"] = cx.cov.get("reused_unpacker_decodes", 0) + 1
+        if outs[0] != outs[1]:
+            cx.witness("unpacker.reused.differs_from_fresh",
+                       {"shared": (len(outs[0][0]), outs[0][1]), "fresh": (len(outs[1][0]), outs[1][1]), "len": len(body)}, replay)
     # bare AVP decode of the body and of the whole input
     for sl in (data[20:], data):
         if not sl:
